@@ -199,7 +199,7 @@ class Transaction:
             sig.add((f.get("name"), type_key, bool(f.get("required", False))))
         return sig
 
-    def _validate_schema_against_table(self, schema: Schema) -> None:
+    def _validate_schema_against_table(self, schema: Schema) -> Optional[Schema]:
         """Reject appends whose schema diverges from the table's persisted schema.
 
         A divergent append would write parquet files whose schema differs from
@@ -208,13 +208,14 @@ class Transaction:
         """
         table_schema = self._resolve_table_schema()
         if table_schema is None:
-            return  # No persisted schema (legacy table): nothing to enforce
+            return None  # No persisted schema (legacy table): nothing to enforce
         if self._schema_signature(schema) != self._schema_signature(table_schema):
             raise ValueError(
                 "Provided schema does not match the table's persisted schema. "
                 "Appending with a divergent schema would make table scans fail. "
                 f"Table fields: {table_schema.fields}; provided fields: {schema.fields}"
             )
+        return table_schema
 
     def append_data(
         self,
@@ -241,7 +242,17 @@ class Transaction:
                     "all record fields."
                 )
         else:
-            self._validate_schema_against_table(schema)
+            # The signature check ignores field ORDER, field ids and schema_id, but
+            # the data file's column order and the bounds' field ids are derived
+            # from the schema used for writing. Writing with the caller's
+            # equivalent-but-differently-spelled schema produced files whose
+            # Arrow schema differs from the rest of the table (every later full
+            # scan then fails on concat) or whose statistics are keyed by the
+            # wrong field ids. Once validated, always write with the table's own
+            # persisted schema.
+            persisted = self._validate_schema_against_table(schema)
+            if persisted is not None:
+                schema = persisted
 
         # Create a data file with the records using UUID for uniqueness
         file_id = uuid.uuid4().hex[:16]  # Use 16 chars of UUID hex
